@@ -123,6 +123,11 @@ def opsC11 : List (String × Handler) := [
         | .panic _ => "panic"
       | _, _, _ => "bad-op"
     | _ => "bad-op"),
+  ("adnl.reader", fun ps =>
+    match ps.mapM unhexFast with
+    | some ps => "ok " ++ String.ofList (ps.map fun p => match connReader p with
+        | .forward => 'f' | .pong => 'p' | .authNonce => 'a')
+    | none => "bad-op"),
   ("adnl.reply", fun
     | [pr, n] => match unhexFast pr, unhexFast n with
       | some pr, some n =>
